@@ -2,7 +2,8 @@
 //
 // destination kinds : vector, deque, list, forward_list, set, multiset, unordered_set, unordered_multiset, queue, stack,
 //                     priority_queue of int; vector/set of std::string (with the uppercase format); int[3],
-//                     std::array<int,3>, std::tuple<int,std::string,int>, std::bitset<5>, vector<bool>, DynamicBitset
+//                     std::array<int,3>, std::tuple<int,std::string,int>, std::bitset<5>, vector<bool>, DynamicBitset,
+//                     map / multimap / unordered_map / unordered_multimap <int,string> (key-value pairs)
 // options           : list separator, clear-before-assign, sort, unique (drop / error), multi-value, element check
 //                     range(0,5), initial content {}, {4}, {4,2}; options a destination does not support are skipped
 // value sequences   : ALL sequences of <= 3 (quick) / <= 4 (thorough) elements over {0,1,2,7} incl. duplicates and the
@@ -23,6 +24,8 @@
 #include <bitset>
 #include <array>
 #include <tuple>
+#include <map>
+#include <unordered_map>
 using namespace celma::prog_args;
 
 static uint64_t g_evals = 0, g_configs = 0, g_skipped_option = 0, g_expect_throw = 0, g_dups = 0;
@@ -143,6 +146,7 @@ template <class C, class E> static void run_kind(const char* name, Place place, 
    }
 }
 
+static char g_fixed_sep = ',';      // list separator used when the cut is written as words (key-value kinds: ';')
 static bool g_fixed_sort = false;    // option "sort" of the fixed-size kinds (arrays only; the others report it as not applicable)
 // ---- fixed-size and bit-set kinds: simpler option space (separator, clear, unique for arrays, initial content)
 template <class Def, class Read> static void run_fixed(const char* name, const std::vector<std::string>& alphabet, int maxlen, Def&& define, Read&& expect) {
@@ -155,7 +159,7 @@ template <class Def, class Read> static void run_fixed(const char* name, const s
          while (od.next()) {
             std::vector<std::string> seq; for (int i = 0; i < len; ++i) seq.push_back(alphabet[od[i]]);
             for (auto& cut : all_cuts(seq)) {
-               std::vector<std::string> words = words_of(cut, ',', false);
+               std::vector<std::string> words = words_of(cut, g_fixed_sep, false);
                std::string got, exp; bool must_throw = false, applicable = true, threw = false; std::string what;
                define(words, clear != 0, uniq, init, got, threw, what, applicable);
                if (!applicable) { ++g_skipped_option; continue; }
@@ -251,6 +255,38 @@ int main(int argc, char** argv) {
          if (seq.size() != 3) { must_throw = true; exp = std::to_string(seq.size()) + " values for a tuple of 3"; return; }
          long long x; if (!hc::conv_int(seq[0], x) || !hc::conv_int(seq[2], x)) { must_throw = true; exp = "element does not convert to int"; return; }
          exp = seq[0] + "|" + seq[1] + "|" + seq[2]; });
+
+   // ---- key-value destinations: every element is a pair "key,value", pairs separated by ';'. map/unordered_map keep the FIRST value of a key
+   //      (their own placement rule: insert), the multi variants keep every pair; unique refers to the key
+   g_fixed_sep = ';';
+   const std::vector<std::string> ka{"1,a", "2,b", "1,c", "7,x"};
+   auto kv_expect = [](bool multi) { return [multi](const std::vector<std::string>& seq, bool clear, int uniq, int init, std::string& exp, bool& must_throw) {
+      std::vector<std::pair<int, std::string>> c; if (init && !clear) c.push_back({4, "i"});
+      for (auto& t : seq) { int k = atoi(t.c_str()); std::string v = t.substr(t.find(',') + 1); bool has = false; for (auto& e : c) has = has || e.first == k;
+         if (uniq && has) { if (uniq == 2) { must_throw = true; exp = "duplicate key " + std::to_string(k); return; } continue; }
+         if (!multi && has) continue;
+         c.push_back({k, v}); }
+      std::stable_sort(c.begin(), c.end(), [](const std::pair<int, std::string>& a, const std::pair<int, std::string>& b) { return a.first < b.first; });
+      std::ostringstream o; for (auto& e : c) o << e.first << "=" << e.second << " "; exp = o.str(); }; };
+   auto kv_run = [](auto dest, bool hashed) { return [dest, hashed](const std::vector<std::string>& words, bool clear, int uniq, int init, std::string& got, bool& threw, std::string& what, bool& applicable) mutable {
+      if (g_fixed_sort) { applicable = false; return; }
+      auto m = dest; if (init) m.insert({4, "i"}); std::ostringstream a, b; Handler h(a, b, 0);
+      try { auto* t = h.addArgument("v", destination(m, "kv"), "desc"); if (clear) t->setClearBeforeAssign(); if (uniq) t->setUniqueData(uniq == 2); } catch (const std::exception&) { applicable = false; return; }
+      hc::Argv av(words); try { h.evalArguments(av.argc(), av.argv()); } catch (const std::exception& e) { threw = true; what = e.what(); }
+      std::vector<std::pair<int, std::string>> c(m.begin(), m.end());
+      if (hashed) std::sort(c.begin(), c.end()); else std::stable_sort(c.begin(), c.end(), [](const std::pair<int, std::string>& x, const std::pair<int, std::string>& y) { return x.first < y.first; });
+      std::ostringstream o; for (auto& e : c) o << e.first << "=" << e.second << " "; got = o.str(); }; };
+   // for the hashed multi variant the order of equal keys is unspecified: the expectation is sorted by (key, value) as well
+   auto kv_expect_sorted = [&](bool multi) { return [multi, &kv_expect](const std::vector<std::string>& seq, bool clear, int uniq, int init, std::string& exp, bool& must_throw) {
+      kv_expect(multi)(seq, clear, uniq, init, exp, must_throw); if (must_throw) return;
+      std::vector<std::string> parts; std::istringstream is(exp); std::string w; while (is >> w) parts.push_back(w);
+      std::vector<std::pair<int, std::string>> c; for (auto& x : parts) c.push_back({atoi(x.c_str()), x.substr(x.find('=') + 1)}); std::sort(c.begin(), c.end());
+      std::ostringstream o; for (auto& e : c) o << e.first << "=" << e.second << " "; exp = o.str(); }; };
+   run_fixed("map<int,string>", ka, 3, kv_run(std::map<int, std::string>(), false), kv_expect(false));
+   run_fixed("multimap<int,string>", ka, 3, kv_run(std::multimap<int, std::string>(), false), kv_expect(true));
+   run_fixed("unordered_map<int,string>", ka, 3, kv_run(std::unordered_map<int, std::string>(), true), kv_expect_sorted(false));
+   run_fixed("unordered_multimap<int,string>", ka, 3, kv_run(std::unordered_multimap<int, std::string>(), true), kv_expect_sorted(true));
+   g_fixed_sep = ',';
 
    vf::count("evaluations", g_evals); vf::count("transitions", g_evals); vf::count("states", g_configs);
    vf::count("option_combinations_not_supported_by_destination", g_skipped_option); vf::count("lines_that_must_be_refused", g_expect_throw); vf::count("duplicate_elements_met", g_dups);
